@@ -14,6 +14,7 @@ Next == /\ depth < MaxDepth /\ depth' = depth + 1
            \/ \E i \in created, a \in MCAttrs : Do(i, "read", a, 0) \/ (a \in Mutable /\ Do(i, "mutate", a, 0))
                                                  \/ Do(i, "delete", a, 0)
                                                  \/ (a \in {"c_int", "m_dyn"} /\ \E v \in {3, 9} : Do(i, "assign", a, v))
+           \/ \E i \in created : Do(i, "wobserve", "c_int", 0) \/ (\E v \in {3, 9} : Do(i, "wassign", "c_int", v))
            \/ \E i \in created : Do(i, "query", "c_int", 0) \/ Do(i, "register", "c_int", 0) \/ Do(i, "add_trait", "c_int", 0) \/ Do(i, "mutate_extra", "c_int", 0)
 Spec == Init /\ [][Next]_vars
 \* ---- C10 as TLC decides it
